@@ -141,8 +141,18 @@ func runCheck(o checkOpts) int {
 	solverTally := map[string]int{}
 	solverSecs := 0.0
 	kinds := map[string]int{}
+	nBounded, okBounded := 0, 0
+	var boundedDescs []string
 	for _, ob := range obs {
 		kinds[ob.Kind]++
+		if ob.Kind == "bounded" {
+			nBounded++
+			boundedDescs = append(boundedDescs, ob.Desc)
+			if ob.Result != nil && ob.Result.Verdict == ob.Expect {
+				okBounded++
+				continue
+			}
+		}
 		if ob.Result == nil {
 			fails = append(fails, fail{ob, "not solved"})
 			continue
@@ -275,8 +285,10 @@ func runCheck(o checkOpts) int {
 	}
 	sort.Strings(lemNames)
 	cov := map[string]interface{}{
-		"obligations":              len(obs),
+		"obligations":              len(obs) - nBounded,
 		"discharged":               discharged,
+		"bounded_standins":         boundedDescs,
+		"bounded_standins_passed":  okBounded,
 		"checker_cmd":              fmt.Sprintf("/verif/bin/govc check %s %s", o.id, o.tier),
 		"trusted_base":             tb,
 		"functions_under_contract": funcsUnder,
@@ -294,7 +306,7 @@ func runCheck(o checkOpts) int {
 	os.MkdirAll(filepath.Join(o.verifDir, "evidence"), 0o755)
 	data, _ := json.MarshalIndent(ev, "", " ")
 	os.WriteFile(filepath.Join(o.verifDir, "evidence", o.id+".json"), data, 0o644)
-	fmt.Printf("%s %s: %d obligations, %d discharged, %d violations, %d engine errors, %.1fs\n", o.id, o.tier, len(obs), discharged, violations, len(engineErrs), time.Since(t0).Seconds())
+	fmt.Printf("%s %s: %d proof obligations, %d discharged; %d bounded stand-ins, %d passed; %d violations, %d engine errors, %.1fs\n", o.id, o.tier, len(obs)-nBounded, discharged, nBounded, okBounded, violations, len(engineErrs), time.Since(t0).Seconds())
 	return exit
 }
 
